@@ -321,7 +321,7 @@ def judge(st, docs, k, prev, rec, V, flags):
         for kind, lst in (("stale", stale), ("missing", missing), ("listed-twice", twice)):
             if lst:
                 bad_set = True
-                V("relay-set-mismatch", "entry-with-p-without-w" if pw else "%s:%s" % (name, kind),
+                V("relay-set-mismatch", "%s:%s%s" % (name, kind, "+entry-with-p-without-w" if pw else ""),
                   {"document": k, "index": name, kind: lst[:4], "n": len(lst), "document_relays": len(wids)}, hard=True)
     if bad_set:
         return prev
